@@ -60,6 +60,7 @@ import datetime
 import decimal
 import fractions
 import itertools
+import json
 import re
 
 import beanquery
@@ -376,6 +377,7 @@ def sec_trunc(acc, rows, params):
     if len(set(rows)) != len(rows):
         raise AssertionError('harness: duplicate dates')
     lead = bool(params.get('lead'))      # the first row is only the predecessor for the monotonicity law
+    p1, p2 = {'lead': False}, {'lead': True}     # parameters recorded with one-row / (predecessor, row) cases
     acc.count('argument_rows', len(rows) - lead)
     res = evaluate(acc, plain_conn, DCOL, rows, [sp.expr for sp in specs])
     prev_row = prev_cells = None
@@ -388,7 +390,7 @@ def sec_trunc(acc, rows, params):
             k = idx[u]
             t, tt, p_first, p_before, p_d = cells[k:k + 5]
             first = R.first_of_unit(u, x)
-            ok_t = check_cell(acc, 'trunc', params, names, row, specs[k], t, first)
+            ok_t = check_cell(acc, 'trunc', p1, names, row, specs[k], t, first)
             if t.__class__ is DATE:
                 note_outcome(acc, f'date_trunc:{u}', t)
                 if t != x:
@@ -396,29 +398,29 @@ def sec_trunc(acc, rows, params):
                 else:
                     acc.count('trunc_on_unit_start')
                 fp = f'date_trunc:{u}'
-                law(acc, t <= x, fp, f"date_trunc('{u}', {x}) = {t} is after the date", 'trunc', params, [row])
+                law(acc, t <= x, fp, f"date_trunc('{u}', {x}) = {t} is after the date", 'trunc', p1, [row])
                 if tt.__class__ is DATE:
                     acc.count('cells')
                     law(acc, tt == t, fp, f"date_trunc('{u}', date_trunc('{u}', {x})) = {tt} but date_trunc('{u}', {x}) = {t}: not idempotent",
-                        'trunc', params, [row])
+                        'trunc', p1, [row])
                 else:
-                    check_cell(acc, 'trunc', params, names, row, specs[k + 1], tt, first)
+                    check_cell(acc, 'trunc', p1, names, row, specs[k + 1], tt, first)
                 if prev_cells is not None and prev_cells[k].__class__ is DATE and R.diff_days(x, prev_row[0]) == 1:
                     pt = prev_cells[k]
                     law(acc, pt <= t, fp, f"date_trunc('{u}', {prev_row[0]}) = {pt} > date_trunc('{u}', {x}) = {t}: not monotone",
-                        'trunc', params, [prev_row, row])
+                        'trunc', p2, [prev_row, row])
                     # consecutive days: either the same unit or d starts a new one
                     law(acc, t == pt or t == x, fp,
                         f"date_trunc('{u}', .) jumps from {pt} (for {prev_row[0]}) to {t} (for {x}) although {x} does not start a unit",
-                        'trunc', params, [prev_row, row])
-            ok_p = check_cell(acc, 'trunc', params, names, row, specs[k + 4], p_d, R.part(u, x))
+                        'trunc', p2, [prev_row, row])
+            ok_p = check_cell(acc, 'trunc', p1, names, row, specs[k + 4], p_d, R.part(u, x))
             if ok_t and ok_p:
                 # only then is a disagreement attributable to date_part on the derived dates
-                a = check_cell(acc, 'trunc', params, names, row, specs[k + 2], p_first, R.part(u, first))
-                b = check_cell(acc, 'trunc', params, names, row, specs[k + 3], p_before, R.part(u, R.add_days(first, -1)))
+                a = check_cell(acc, 'trunc', p1, names, row, specs[k + 2], p_first, R.part(u, first))
+                b = check_cell(acc, 'trunc', p1, names, row, specs[k + 3], p_before, R.part(u, R.add_days(first, -1)))
                 if a and b:
                     law(acc, p_first == p_d and p_before != p_d, f'date_part:{u}',
-                        f"date_part('{u}') does not agree with date_trunc('{u}') around {x}", 'trunc', params, [row])
+                        f"date_part('{u}') does not agree with date_trunc('{u}') around {x}", 'trunc', p1, [row])
                     acc.count('nontrivial_cells', 2)
         prev_row, prev_cells = row, cells
     if rows:
@@ -511,7 +513,21 @@ def sec_pairs(acc, rows, params):
         Spec(A.Add(y, A.Sub(x, y)), 'date+int', lambda r: r[0]),
         Spec(A.Sub(x, A.Sub(x, y)), 'date-int', lambda r: r[1]),
     ]
-    res = run_specs(acc, 'pairs', params, plain_conn, [('x', DATE), ('y', DATE)], rows, specs, outcomes=False)
+    cols = [('x', DATE), ('y', DATE)]
+    if len(set(rows)) != len(rows):
+        raise AssertionError('harness: duplicate rows')
+    acc.count('argument_rows', len(rows))
+    res = evaluate(acc, plain_conn, cols, rows, [sp.expr for sp in specs])
+    for row, cells in zip(rows, res):
+        ok = [check_cell(acc, 'pairs', params, ['x', 'y'], row, sp, got, sp.expect(row)) for sp, got in zip(specs[:2], cells)]
+        # the inverse laws are attributed to date_add / date +- int only when the difference itself was right
+        for k, base in ((2, ok[0]), (3, ok[1]), (4, ok[1])):
+            acc.count('cells')
+            if base:
+                acc.count('cells', -1)
+                check_cell(acc, 'pairs', params, ['x', 'y'], row, specs[k], cells[k], specs[k].expect(row))
+        if row[0] != row[1]:
+            acc.count('nontrivial_cells', 5)
     if rows:
         acc.sample({'section': 'pairs', 'row': [lit(v) for v in rows[-1]], 'cells': {sp.text: lit(c) for sp, c in zip(specs, res[-1])}}, limit=1)
 
@@ -533,7 +549,8 @@ def sec_bin_day(acc, rows, params):
     for n in DAY_STRIDES:
         exp = lambda r, n=n: R.bin_days(r[0], origin, n)
         specs.append((n, Spec(F('date_bin', C(stride_text(n)), d, C(origin)), 'date_bin:day', exp)))
-        specs.append((n, Spec(F('date_bin', F('interval', C(stride_text(n))), d, C(origin)), 'date_bin:day', exp)))
+        if n in params.get('interval_overload', DAY_STRIDES):
+            specs.append((n, Spec(F('date_bin', F('interval', C(stride_text(n))), d, C(origin)), 'date_bin:day', exp)))
     acc.count('argument_rows', len(rows))
     res = evaluate(acc, plain_conn, DCOL, rows, [sp.expr for _, sp in specs])
     for row, cells in zip(rows, res):
@@ -698,8 +715,10 @@ def sec_acct_parts(acc, rows, params):
     for row, cells in zip(multi, res):
         _, lf, pa = cells
         if isinstance(lf, str) and isinstance(pa, str):
-            law(acc, pa + ':' + lf == row[0], 'parent:leaf', f"parent({lit(row[0])}) + ':' + leaf({lit(row[0])}) = {lit(pa + ':' + lf)}",
-                'acct_parts', params, [row])
+            # the law of the property; a failure caused by a cell already reported under 'parent' / 'leaf' keeps that fingerprint
+            already = lf != specs[1].expect(row) or pa != specs[2].expect(row)
+            law(acc, pa + ':' + lf == row[0] or already, 'parent:leaf',
+                f"parent({lit(row[0])}) + ':' + leaf({lit(row[0])}) = {lit(pa + ':' + lf)}", 'acct_parts', params, [row])
     if single:
         anything = lambda r: Pred(lambda got: None if got is None or isinstance(got, str) else 'a string or NULL')
         specs1 = [specs[0], specs[1], Spec(F('parent', a), 'parent', anything)]
@@ -1298,7 +1317,7 @@ def sec_cast(acc, rows, params):
     func, coltype = params['func'], params['coltype']
     rows = [tuple(r) for r in rows]
     names = ['v']
-    fp = f'cast:{func}({coltype})'
+    fp = f'cast:{func}'            # one implementation serves every overload of a cast: one locus
     acc.count('argument_rows', len(rows))
     if coltype == 'const':
         for (i,) in rows:
@@ -1314,7 +1333,7 @@ def sec_cast(acc, rows, params):
     res = evaluate(acc, plain_conn, [('v', COLTYPES[coltype])], [(vals[i],) for (i,) in rows], [sp.expr])
     if rows and all(c[0].__class__ is Raised and c[0].cls == 'CompilationError' for c in res):
         acc.count('cast_static_rejections', len(rows))
-        law(acc, (func, coltype) not in REQUIRED, fp + ':rejected', f'{func}({coltype} column) is rejected at compile time: {res[0][0].text}',
+        law(acc, (func, coltype) not in REQUIRED, f'{fp}({coltype}):rejected', f'{func}({coltype} column) is rejected at compile time: {res[0][0].text}',
             'cast', params, rows[:1])
         return
     for (i,), cells in zip(rows, res):
@@ -1340,7 +1359,7 @@ def _cast_cell(acc, params, names, row, v, sp, got, func):
     acc.count('null_results' if got is None else 'cast_converted')
     if got is not None and not (type(got) is type(v) and eq(got, v)):
         acc.count('nontrivial_cells')
-    note_outcome(acc, sp.fp, got)
+    note_outcome(acc, f'{sp.fp}({params["coltype"]})', got)
     if exp.__class__ is Pred:
         err = exp.test(got)
         if err is not None:
@@ -1563,7 +1582,8 @@ def build_tasks(tier, seed):
         add(20, 'trunc', {'lead': lo != LO.toordinal()}, 'g_dates', lo, hi)
     for lo, hi in chunks(LO, HI, NCHUNK):
         add(10, 'parts', {}, 'g_dates', lo, hi)
-    years = (1900, 1999, 2000, 2001, 2019, 2020, 2023, 2024, 2099, 2100) if quick else tuple(range(1900, 2101))
+    # thorough: every leap year and the year before it (n = +-400 reaches into the two other years of each cycle), incl. 1900/2100
+    years = (1900, 1999, 2000, 2001, 2019, 2020, 2024, 2100) if quick else tuple(y for y in range(1900, 2101) if y % 4 in (0, 3))
     for y in years:
         add(12, 'addsub', {}, 'g_addsub', (y,))
     py = (1900, 2000, 2020, 2100) if quick else (1900, 1999, 2000, 2001, 2019, 2020, 2024, 2100)
@@ -1572,7 +1592,8 @@ def build_tasks(tier, seed):
     span = 5 if quick else 30
     for o in origins(seed):
         for lo, hi in chunks(LO, HI, 8):
-            add(6, 'bin_day', {'origin': o}, 'g_dates', lo, hi)
+            # both overloads share the day branch; quick runs the interval overload for strides 1 and 7 only
+            add(6, 'bin_day', {'origin': o, 'interval_overload': [1, 7] if quick else list(DAY_STRIDES)}, 'g_dates', lo, hi)
         wlo, whi = max(LO, R.add_months(o, -12 * span)), min(HI, R.add_months(o, 12 * span))
         for n, text in MONTH_STRIDES:
             pieces = 1 if quick else (8 if n <= 3 else 3)
@@ -1623,7 +1644,7 @@ def build_tasks(tier, seed):
 # Driver
 # =====================================================================================================
 
-import json  # noqa: E402
+
 
 PER_SECTION = ('argument_rows', 'cells', 'queries', 'nontrivial_cells', 'null_results', 'law_checks')
 
@@ -1697,7 +1718,7 @@ def run(ctx):
         'bounds': {
             'dates': f'{LO}..{HI} complete ({HI.toordinal() - LO.toordinal() + 1} dates) for date_trunc (7 units), date_part (13 fields), '
                      'extraction functions and day-stride date_bin',
-            'date_add_n': '-400..400 on 1st/2nd/28th/last-1/last of every month of ' + ('10 boundary years' if quick else 'every year 1900..2100'),
+            'date_add_n': '-400..400 on 1st/2nd/28th/last-1/last of every month of ' + ('8 boundary years' if quick else 'every year y in 1900..2100 with y % 4 in (0, 3)'),
             'date_bin_day_strides': list(DAY_STRIDES),
             'date_bin_month_strides': [t for _, t in MONTH_STRIDES],
             'date_bin_origins': [str(o) for o in origins(ctx.seed)],
